@@ -137,6 +137,19 @@ Fixpoint max_flush_per_round (tr : list label) (cur best : nat) : nat :=
   | _ :: tr' => max_flush_per_round tr' cur best
   end.
 
+(** an idle round in which the handler neither called a batch function nor received a resolution of
+    this execution: it returned without having sent a result to any promise (the executor's contract;
+    impossible in the LTS: C15_idle_round_fulfils) *)
+Fixpoint empty_round (tr : list label) (in_round delivered : bool) : bool :=
+  match tr with
+  | [] => false
+  | LIdleEnter :: tr' => empty_round tr' true false
+  | LFlush _ _ :: tr' => empty_round tr' in_round true
+  | LRecv _ :: tr' => empty_round tr' in_round true
+  | LIdleExit :: tr' => (in_round && negb delivered) || empty_round tr' false false
+  | _ :: tr' => empty_round tr' in_round delivered
+  end.
+
 (** a round that both flushes and receives *)
 Fixpoint flush_then_recv (tr : list label) (flushed : bool) : bool :=
   match tr with
@@ -220,6 +233,7 @@ Definition check (c : sexp) : sexp :=
                   | None =>
                       if negb cancelled && negb (bytes_eqb respa resps) then v_oracle_fail "response-differs-from-synchronous" []
                       else if negb (Nat.eqb leak 0) then v_oracle_fail "goroutine-blocked-after-request" [of_nat leak]
+                      else if empty_round tr false false then v_oracle_fail "idle-round-filled-no-promise-of-this-execution" []
                       else
                         (* ---- the model as an acceptor of the observed history ---- *)
                         (* the code that exists ([current]); a history it rejects is tried against
